@@ -333,3 +333,23 @@ def validated_first(ctx: Ctx, rule: str, f: Func, bad_fact: str, what: str):
             bad = st
             break
     ctx.ob(rule, f, what, bad is None, node=bad, detail="" if bad is None else f"`{norm(bad)}` is reachable without `{bad_fact}` having been rejected", by=(f"not {bad_fact} at every await/return/self-call",))
+
+
+# ----------------------------------------------------------------------------- iteration protocol of receive streams
+def iteration_protocol(ctx: Ctx, rule: str, clsname: str):
+    """`async for x in stream` is `receive()` until EndOfStream: __anext__ returns exactly what receive() returned, turns
+    EndOfStream (and nothing else) into StopAsyncIteration, and __aiter__ returns the stream itself"""
+    an = ctx.fn(f"{clsname}.__anext__", "abc/_streams.py")
+    ai = ctx.fn(f"{clsname}.__aiter__", "abc/_streams.py")
+    s = ctx.sites(an, "return await self.receive()")
+    allrecv = [n for n in own_walk(an.node) if isinstance(n, ast.Call) and ast.unparse(n.func) == "self.receive"]
+    ctx.ob(rule, an, f"{clsname}.__anext__ returns exactly what receive() returned", len(s) == 1 and len(allrecv) == 1,
+           detail="" if s else "__anext__ is not `return await self.receive()` (an item could be dropped, duplicated or altered by iteration)", by=("return await self.receive()",))
+    hs = [h for h in own_walk(an.node) if isinstance(h, ast.ExceptHandler)]
+    ok = len(hs) == 1 and hs[0].type is not None and ast.unparse(hs[0].type) == "EndOfStream" and \
+        any(isinstance(x, ast.Raise) and x.exc is not None and "StopAsyncIteration" in ast.unparse(x.exc) for x in hs[0].body)
+    ctx.ob(rule, an, f"{clsname}.__anext__ ends the iteration exactly on EndOfStream", ok,
+           detail="" if ok else "the handler in __anext__ is not `except EndOfStream: raise StopAsyncIteration` (other errors would silently end the loop, or the loop never ends)",
+           by=("except EndOfStream: raise StopAsyncIteration",))
+    s = ctx.sites(ai, "return self")
+    ctx.ob(rule, ai, f"{clsname}.__aiter__ iterates the stream itself", len(s) == 1, detail="" if s else "__aiter__ does not return self", by=("return self",))
